@@ -1,6 +1,6 @@
 /-
   Invariants that need no loop bookkeeping: worker-slot count (C03) and
-  "nothing starts after cancellation" (C09).
+  "nothing starts after the cancellation of its own context" (C09).
 -/
 import CffVerif.Sched.Basic
 
@@ -16,21 +16,22 @@ end Sched
 
 namespace Sched
 
-/-- Events that must not occur once the context is cancelled: a job start, and `Wait` returning nil. -/
-def Bad : Ev → Prop
-  | .started _ => True
-  | .waitReturned [] => True
+/-- Events that must not occur once context `x` is cancelled: the start of a job enqueued with
+    context `x`, and `Wait` returning nil when `Wait` was called with context `x`. -/
+def Bad (c : Cfg) (x : Nat) : Ev → Prop
+  | .started j => c.ctxOfJob j = x
+  | .waitReturned [] => c.waitCtx = x
   | _ => False
 
-/-- No `Bad` event after a `cancelled` event. -/
-def CleanLog (log : List Ev) : Prop :=
-  ∀ (i k : Nat) (e : Ev), log[i]? = some Ev.cancelled → log[k]? = some e → Bad e → k < i
+/-- No `Bad c x` event after a `cancelled x` event. -/
+def CleanLog (c : Cfg) (log : List Ev) : Prop :=
+  ∀ (x i k : Nat) (e : Ev), log[i]? = some (Ev.cancelled x) → log[k]? = some e → Bad c x e → k < i
 
-theorem cleanLog_nil : CleanLog [] := by intro i k e h; simp at h
+theorem cleanLog_nil (c : Cfg) : CleanLog c [] := by intro x i k e h; simp at h
 
-theorem cleanLog_append_other {log : List Ev} {e : Ev} (h : CleanLog log)
-    (he : ¬ Bad e) : CleanLog (log ++ [e]) := by
-  intro i k e' hi hk hb
+theorem cleanLog_append_other {c : Cfg} {log : List Ev} {e : Ev} (h : CleanLog c log)
+    (he : ∀ x, ¬ Bad c x e) : CleanLog c (log ++ [e]) := by
+  intro x i k e' hi hk hb
   have hk' : k < log.length := by
     by_cases hlt : k < log.length
     · exact hlt
@@ -40,15 +41,15 @@ theorem cleanLog_append_other {log : List Ev} {e : Ev} (h : CleanLog log)
       subst this
       simp at hk
       subst hk
-      exact absurd hb he
+      exact absurd hb (he x)
   rw [List.getElem?_append_left hk'] at hk
   by_cases hi' : i < log.length
   · rw [List.getElem?_append_left hi'] at hi
-    exact h i k e' hi hk hb
+    exact h x i k e' hi hk hb
   · omega
 
-theorem cleanLog_append_list {log es : List Ev} (h : CleanLog log)
-    (he : ∀ e ∈ es, ¬ Bad e) : CleanLog (log ++ es) := by
+theorem cleanLog_append_list {c : Cfg} {log es : List Ev} (h : CleanLog c log)
+    (he : ∀ e ∈ es, ∀ x, ¬ Bad c x e) : CleanLog c (log ++ es) := by
   induction es generalizing log with
   | nil => simpa using h
   | cons e es ih =>
@@ -58,33 +59,55 @@ theorem cleanLog_append_list {log es : List Ev} (h : CleanLog log)
     · exact cleanLog_append_other h (he e (by simp))
     · intro e' he'; exact he e' (by simp [he'])
 
-theorem cleanLog_append_bad {log : List Ev} {e : Ev} (he : e ≠ Ev.cancelled)
-    (hc : Ev.cancelled ∉ log) : CleanLog (log ++ [e]) := by
-  intro i k e' hi hk _
+/-- Appending an event that is bad only for contexts not cancelled so far (and is not itself a
+    cancellation) keeps the log clean. -/
+theorem cleanLog_append_bad {c : Cfg} {log : List Ev} {e : Ev} (h : CleanLog c log)
+    (he : ∀ x, e ≠ Ev.cancelled x)
+    (hc : ∀ x, Bad c x e → Ev.cancelled x ∉ log) : CleanLog c (log ++ [e]) := by
+  intro x i k e' hi hk hb
   by_cases hi' : i < log.length
   · rw [List.getElem?_append_left hi'] at hi
-    exact absurd (List.mem_of_getElem? hi) hc
+    by_cases hk' : k < log.length
+    · rw [List.getElem?_append_left hk'] at hk
+      exact h x i k e' hi hk hb
+    · have : k = log.length := by
+        have := (List.getElem?_eq_some_iff.mp hk).1
+        simp at this; omega
+      subst this
+      simp at hk
+      subst hk
+      exact absurd (List.mem_of_getElem? hi) (hc x hb)
   · have : i = log.length := by
       have := (List.getElem?_eq_some_iff.mp hi).1
       simp at this; omega
     subst this
     simp at hi
-    exact absurd hi he
+    exact absurd hi (he x)
+
+/-- Executable form of "no context was ever cancelled" (`∀ x, Ev.cancelled x ∉ log`), for
+    `decide`d examples. -/
+def noCancelB (log : List Ev) : Bool :=
+  log.all fun e => match e with | .cancelled _ => false | _ => true
+
+theorem noCancel_of_b {log : List Ev} (h : noCancelB log = true) : ∀ x, Ev.cancelled x ∉ log := by
+  intro x hm
+  have := List.all_eq_true.mp h _ hm
+  simp at this
 
 /-- The C09 invariant. -/
-structure CancelInv (s : State) : Prop where
-  clean : CleanLog s.log
-  flag  : Ev.cancelled ∈ s.log → s.cancelled = true
+structure CancelInv (c : Cfg) (s : State) : Prop where
+  clean : CleanLog c s.log
+  flag  : ∀ x, Ev.cancelled x ∈ s.log → s.cancelledCtx x = true
 
-theorem cancelInv_init (c : Cfg) : CancelInv (init c) :=
-  ⟨by simpa [init] using cleanLog_nil, by simp [init]⟩
+theorem cancelInv_init (c : Cfg) : CancelInv c (init c) :=
+  ⟨by simpa [init] using cleanLog_nil c, by simp [init]⟩
 
 
-theorem invalidWrites_not_bad (ks : List Nat) : ∀ e ∈ invalidWrites ks, ¬ Bad e := by
-  intro e he; simp [invalidWrites] at he; obtain ⟨k, _, rfl⟩ := he; simp [Bad]
+theorem invalidWrites_not_bad (c : Cfg) (ks : List Nat) : ∀ e ∈ invalidWrites ks, ∀ x, ¬ Bad c x e := by
+  intro e he x; simp [invalidWrites] at he; obtain ⟨k, _, rfl⟩ := he; simp [Bad]
 
 theorem cancelInv_step {c : Cfg} (hw : c.wiring = Wiring.std) {s s' : State} {a : Act}
-    (hi : CancelInv s) (h : step c s a = some s') : CancelInv s' := by
+    (hi : CancelInv c s) (h : step c s a = some s') : CancelInv c s' := by
   obtain ⟨hc, hf⟩ := hi
   cases a with
   | callerSend =>
@@ -99,12 +122,16 @@ theorem cancelInv_step {c : Cfg} (hw : c.wiring = Wiring.std) {s s' : State} {a 
     simp only [step] at h; split at h <;> simp at h; subst h
     refine ⟨?_, by simpa using hf⟩
     simp only [addLog_log]
-    by_cases hcan : s.cancelled = true
+    by_cases hcan : s.cancelledCtx c.waitCtx = true
     · apply cleanLog_append_other hc
       simp only [hcan, if_true]
       split <;> simp_all [Bad]
-    · apply cleanLog_append_bad (by simp)
-      intro hm; exact hcan (hf hm)
+    · apply cleanLog_append_bad hc (by simp)
+      intro x hb hm
+      have hx : c.waitCtx = x := by
+        split at hb <;> simp_all [Bad]
+      subst hx
+      exact hcan (hf _ hm)
   | loopEnq =>
     simp only [step] at h; split at h <;> simp at h; subst h
     exact ⟨cleanLog_append_other hc (by simp [Bad]), by simpa using hf⟩
@@ -122,11 +149,11 @@ theorem cancelInv_step {c : Cfg} (hw : c.wiring = Wiring.std) {s s' : State} {a 
       simp at he
       rcases he with rfl | he
       · simp [Bad]
-      · exact invalidWrites_not_bad _ e he.2
-    · intro hm
+      · exact invalidWrites_not_bad c _ e he.2
+    · intro x hm
       simp at hm
       rcases hm with hm | hm
-      · exact hf hm
+      · exact hf x hm
       · simp [invalidWrites] at hm
   | loopTick =>
     simp only [step] at h; split at h <;> simp at h; subst h
@@ -147,25 +174,32 @@ theorem cancelInv_step {c : Cfg} (hw : c.wiring = Wiring.std) {s s' : State} {a 
       · simp at h; subst h
         exact ⟨cleanLog_append_other hc (by simp [Bad]), by simpa using hf⟩
       · simp at h; subst h
-        rename_i hnc _
-        have hnc' : s.cancelled = false := by simpa using hnc
-        refine ⟨cleanLog_append_bad (by simp) ?_, ?_⟩
-        · intro hm; have := hf hm; simp [hnc'] at this
-        · intro hm; simp at hm; exact hf hm
+        rename_i j _ hnc _
+        have hnc' : s.cancelledCtx (c.ctxOfJob j) = false := by simpa using hnc
+        refine ⟨cleanLog_append_bad hc (by simp) ?_, ?_⟩
+        · intro x hb hm
+          have hx : c.ctxOfJob j = x := hb
+          subst hx
+          have := hf _ hm; simp [hnc'] at this
+        · intro x hm; simp at hm; simpa using hf x hm
   | workerEnd w o cancel =>
     simp only [step] at h
     split at h <;> try (simp at h)
     rename_i j hj
-    have key : CancelInv (if (cancel && !(addLog s (Ev.ended j o)).cancelled) = true
-        then addLog { addLog s (Ev.ended j o) with cancelled := true } Ev.cancelled
+    have key : CancelInv c (if (cancel && !(addLog s (Ev.ended j o)).cancelledCtx (c.ctxOfJob j)) = true
+        then addLog ((addLog s (Ev.ended j o)).cancelCtx (c.ctxOfJob j)) (Ev.cancelled (c.ctxOfJob j))
         else addLog s (Ev.ended j o)) := by
-      have h1 : CleanLog (s.log ++ [Ev.ended j o]) := cleanLog_append_other hc (by simp [Bad])
+      have h1 : CleanLog c (s.log ++ [Ev.ended j o]) := cleanLog_append_other hc (by simp [Bad])
       split
       · refine ⟨?_, ?_⟩
         · simpa using cleanLog_append_other h1 (by simp [Bad])
-        · intro _; rfl
+        · intro x hm
+          simp at hm
+          rcases hm with hm | hm
+          · simpa [cancelCtx_cancelledCtx] using Or.inr (hf x hm)
+          · subst hm; simp
       · refine ⟨by simpa using h1, ?_⟩
-        intro hm; simp at hm; simpa using hf hm
+        intro x hm; simp at hm; simpa using hf x hm
     split at h <;> (simp at h; subst h; exact ⟨by simpa using key.clean, by simpa using key.flag⟩)
   | workerPost w =>
     simp only [step] at h
@@ -179,8 +213,13 @@ theorem cancelInv_step {c : Cfg} (hw : c.wiring = Wiring.std) {s s' : State} {a 
     simp only [step] at h
     split at h <;> try (simp at h)
     obtain ⟨_, rfl⟩ := h; exact ⟨by simpa using hc, by simpa using hf⟩
-  | cancel =>
+  | cancel y =>
     simp only [step] at h; split at h <;> simp at h; subst h
-    exact ⟨cleanLog_append_other hc (by simp [Bad]), by intro _; rfl⟩
+    refine ⟨cleanLog_append_other hc (by simp [Bad]), ?_⟩
+    intro x hm
+    simp at hm
+    rcases hm with hm | hm
+    · simpa [cancelCtx_cancelledCtx] using Or.inr (hf x hm)
+    · subst hm; simp
 
 end Sched
